@@ -35,7 +35,7 @@ def expected(sel, platform, has, defaults, launch, interp):
         if platform == 'default':
             return None if on_d is None else tostr(on_d)
         if on_d is None and on_p is None:
-            return None
+            return None                      # defined on neither platform (an empty definition IS a definition)
         out = tostr(on_d or {})
         out.update(tostr(on_p or {}))
         return out
@@ -88,22 +88,35 @@ def body(ctx):
     interp = ctx.flag('interpreter')
     has = {}
     envs = {'default': {}, 'p': {}}
-    if ctx.flag('named_on_default'):
-        e = dict(NAMED)
-        d = ctx.choice('DEFAULTS', [None, 'PATH', 'PATH:A', 'A:SECRET', 'NOPE'])
-        if d is not None:
-            e['DEFAULTS'] = d
+    # every environment is absent, defined-but-empty, or defined with contents, independently on each platform
+    nd = ctx.choice('named_on_default', ['absent', 'empty', 'full'])
+    if nd != 'absent':
+        e = dict(NAMED) if nd == 'full' else {}
+        if nd == 'full':
+            d = ctx.choice('DEFAULTS', [None, 'PATH', 'PATH:A', 'A:SECRET', 'NOPE', 'HOME:PATH', 'PATH:HOME'])
+            if d is not None:
+                e['DEFAULTS'] = d
+            if ctx.flag('overrides_home'):
+                # a second imported-and-overridden variable that PATH refers to
+                e['HOME'] = '/opt/custom'
+                e['PATH'] = 'mine:$HOME/bin:$PATH'
         envs['default']['MyEnv'] = e
         has[('default', 'myenv')] = e
-    if ctx.flag('named_on_p'):
-        envs['p']['myenv'] = dict(NAMED_P)
-        has[('p', 'myenv')] = dict(NAMED_P)
-    if ctx.flag('pkg_on_default'):
-        envs['default']['environment'] = dict(PKG)
-        has[('default', 'environment')] = dict(PKG)
-    if ctx.flag('pkg_on_p'):
-        envs['p']['ENVIRONMENT'] = dict(PKG_P)
-        has[('p', 'environment')] = dict(PKG_P)
+    np_ = ctx.choice('named_on_p', ['absent', 'empty', 'full'])
+    if np_ != 'absent':
+        e = dict(NAMED_P) if np_ == 'full' else {}
+        envs['p']['myenv'] = e
+        has[('p', 'myenv')] = dict(e)
+    pd = ctx.choice('pkg_on_default', ['absent', 'empty', 'full'])
+    if pd != 'absent':
+        e = dict(PKG) if pd == 'full' else {}
+        envs['default']['environment'] = e
+        has[('default', 'environment')] = dict(e)
+    pp = ctx.choice('pkg_on_p', ['absent', 'empty', 'full'])
+    if pp != 'absent':
+        e = dict(PKG_P) if pp == 'full' else {}
+        envs['p']['ENVIRONMENT'] = e
+        has[('p', 'environment')] = dict(e)
     launch = {'HOME': LAUNCH['HOME']}
     for k in ('PATH', 'A', 'SECRET', 'PYTHONPATH', 'LD_LIBRARY_PATH'):
         if ctx.flag('launch_has_' + k):
@@ -148,9 +161,16 @@ def body(ctx):
         ctx.witness('empty_environment')
         ctx.check(set(got) <= set(SYSVARS) | (set(INTERP_VARS) if interp else set()),
                   'the empty environment contains only the system variables', detail)
+    name_l = (sel or '').lower()
     ctx.check(got == exp, 'environment equals the documented layering and expansion', detail)
     if 'SECRET' in got:
         ctx.witness('secret_imported_or_full_launch')
+    if platform == 'p' and name_l in ('myenv', 'environment', '') and has.get(('p', name_l or 'environment')) == {} \
+            and ('default', name_l or 'environment') not in has:
+        ctx.witness('empty_environment_only_on_selected_platform')
+    if 'HOME' in has.get(('default', 'myenv'), {}) and has[('default', 'myenv')].get('DEFAULTS') == 'HOME:PATH' \
+            and name_l == 'myenv' and 'PATH' in launch:
+        ctx.witness('imported_variable_refers_to_earlier_imported_override')
     if platform == 'p' and ('p', 'myenv') in has and ('default', 'myenv') in has and (sel or '').lower() == 'myenv':
         ctx.witness('layered_over_default')
     return sorted(got.items())
@@ -170,8 +190,8 @@ def main(tier, seed, only=None):
                      'FlowIRConcrete.__init__', 'FlowIR.from_dict', 'FlowIRConcrete.get_environment',
                      'get_platform_environment', 'get_environments', 'flowir.expand_vars', 'FlowIR.fill_in']
     rep.bounds = {'selected environment': [None, '', 'none', 'None', 'environment', 'Environment', 'MyEnv', 'myenv', 'ghost'],
-                  'platform': ['default', 'p'], 'presence': 'named/package environment on default and/or selected platform',
-                  'DEFAULTS': [None, 'PATH', 'PATH:A', 'A:SECRET', 'NOPE'],
+                  'platform': ['default', 'p'], 'presence': 'named/package environment absent, defined empty, or defined with contents, independently on the default and the selected platform',
+                  'DEFAULTS': [None, 'PATH', 'PATH:A', 'A:SECRET', 'NOPE', 'HOME:PATH', 'PATH:HOME'], 'overrides': 'optionally HOME overridden and referenced by the PATH override',
                   'launch environment': 'any subset of PATH, A, SECRET, PYTHONPATH, LD_LIBRARY_PATH (+HOME)',
                   'interpreter': [False, True], 'values': 'fixed tokens with $A, ${SECRET}, $PATH, $X, empty, undefined references'}
     rep.outside = ['values other than the token set (no symbolic strings)', '%(variable)s interpolation inside environment values',
@@ -182,7 +202,8 @@ def main(tier, seed, only=None):
                        'builds a real FlowIRConcrete and calls the real environmentForNode; result compared with an independent '
                        'statement of the documented rules')
     rep.required_witnesses = ['unknown_environment_rejected', 'empty_environment', 'secret_imported_or_full_launch',
-                              'layered_over_default']
+                              'layered_over_default', 'empty_environment_only_on_selected_platform',
+                              'imported_variable_refers_to_earlier_imported_override']
     s = explore_parallel('environment', factory, [{'name': 'env'}], signature=signature, seed=seed, chunk=200)
     rep.add(s)
     return rep.finish()
